@@ -3,9 +3,9 @@
 package cmd
 
 import (
+	"bytes"
 	"fmt"
 	"runtime"
-	"bytes"
 	"strconv"
 	"time"
 
